@@ -182,6 +182,10 @@ def run_scenario(sc, base, fast=True, mode='each', real_passes=None, on_test=Non
             tm.MAX_CRASH_DIRS = cfg['maxcrash']
             tm.MAX_EXTRA_DIRS = cfg['maxextra']
             o.tm = tm
+            if sc.get('skip_check'):
+                # as cvise.py does for --skip-interestingness-test-check: the reducer object is built around the manager
+                from cvise.cvise import CVise as _CV
+                _CV(tm, True)
             order = [str(p) for p in tm.test_cases]        # set iteration order = model file index
             o.order = order
             o.perm = [names.index(n) for n in order]
@@ -248,7 +252,7 @@ def run_scenario(sc, base, fast=True, mode='each', real_passes=None, on_test=Non
             else:
                 grp = sc['group']
                 pg = {k: mk_passes(grp.get(k, [])) for k in ('first', 'main', 'last')}
-                cv = CVise(tm, False)
+                cv = CVise(tm, bool(sc.get('skip_check')))
                 code = 0
                 o.after_pass = []
                 orig_rp = tm.run_pass
